@@ -268,7 +268,9 @@ type UDPSock struct {
 	ReadErr      error // returned by the next ReadFrom (once)
 	WriteErr     error // returned by every WriteTo while set
 	WriteErrOnce bool
-	calls        int // progress monitor
+	// CloseErr: the next Close fails with this error and leaves the socket open (the caller may close it again)
+	CloseErr error
+	calls    int // progress monitor
 	// Manual sockets are harness endpoints: nothing reads them but Drain.
 	Reads int
 	reuse bool // bound with SO_REUSEPORT (ModelReusePort)
@@ -553,6 +555,13 @@ func (s *UDPSock) Close() error {
 		s.mu.Unlock()
 
 		return net.ErrClosed
+	}
+	if s.CloseErr != nil {
+		err := s.CloseErr
+		s.CloseErr = nil
+		s.mu.Unlock()
+
+		return err
 	}
 	s.isClosed = true
 	close(s.closed)
